@@ -174,6 +174,9 @@ def compare(ctx, devices, want, replay, script):
     return True
 
 
+REUSED = [None]
+
+
 def case_lscap(ctx, rng, descs):
     devices = simnet.make_devices(descs)
     randomise(rng, devices)
@@ -211,7 +214,26 @@ def case_lscap(ctx, rng, descs):
                 'hue 77 saturation 10 brightness 20 kelvin 3000 set all '
                 + rng.choice(['on all', 'off all', ''])).execute()
         env.reset_monitors()
-        job2 = job if rng.random() < 0.5 else ScriptJob.from_string(script)
+        r = rng.random()
+        if r < 0.4:
+            job2 = job
+        elif r < 0.7:
+            job2 = ScriptJob.from_string(script)
+        else:
+            # one long-lived job object that gets every snapshot of this
+            # shard loaded into it, as a front end keeping its job might
+            if REUSED[0] is None:
+                REUSED[0] = ScriptJob()
+            job2 = REUSED[0]
+            job2.load_string(script)
+            if job2.program is None:
+                ctx.violation('capture:does-not-compile', 'on a job that had '
+                              'replayed other snapshots: {} | {!r}'.format(
+                                  job2.compile_errors.strip(), script[:300]),
+                              replay)
+                REUSED[0] = ScriptJob()
+                return
+            ctx.count('replays_on_reloaded_job')
         job2.execute()
         replay['replays'] = again + 2
         if env.MACHINE_STOPS:
